@@ -5,7 +5,7 @@ E1:
   cipher    : protect/unprotect on streams - every (position mod 143, byte) cell, i.e.
               256 strings of length 2*143+5 whose byte at position i is (7i+k) mod 256
               (each position sees all 256 bytes; two periods + wrap), all strings of
-              length 1..3 over {00,1A,FF,41}, lengths 142,143,144,286,287:
+              length 0..3 over {00,1A,FF,41}, lengths 142,143,144,286,287:
               unprotect(protect(s) + EOF) == s, and protect is injective per position
   roundtrip : program family (C14 grammar programs, edge programs, hand-assembled
               tokenised-only programs, three recorded GW-BASIC corpus programs) x formats
@@ -50,9 +50,6 @@ ASSUMPTIONS = [
     '(read-only, to compare program memory byte for byte)',
     '"program memory" is the bytes up to Program.code_size (what PEEK attributes to the program); bytes '
     'that LOAD keeps beyond the terminator (the file\'s EOF byte) are not program memory',
-    'the empty byte string is excluded from the cipher law: protect(b"") / unprotect(b"") raise '
-    'UnboundLocalError, but SAVE always passes at least the 2-byte program terminator, so no BASIC input '
-    'reaches it',
     '"the listing re-enters as the same program" is decided by typing every listed line (<= 255 '
     'characters each) into a fresh Session and comparing program memory; if it does not, the ASCII '
     'round trip is only required not to raise a host exception',
@@ -157,7 +154,7 @@ def work_cipher_small(shard):
     part = Partial()
     alpha = (0x00, 0x1a, 0xff, 0x41)
     strings = []
-    for n in (1, 2, 3):
+    for n in (0, 1, 2, 3):
         def rec(prefix):
             if len(prefix) == n:
                 strings.append(bytes(prefix))
@@ -604,7 +601,7 @@ def legs(ctx):
     out.append(Leg('cipher-bijection', [0], work_cipher_bijection, exhaustive=True,
                    bound='protect is injective on the 256 byte values at each of %d positions' % CELL_LEN))
     out.append(Leg('cipher-small', [0], work_cipher_small, exhaustive=True,
-                   bound='all strings of length 1..3 over {00,1A,FF,41}; lengths 142,143,144,286,287 x 4 fills'))
+                   bound='all strings of length 0..3 over {00,1A,FF,41}; lengths 142,143,144,286,287 x 4 fills'))
     fam = edge_programs() + grammar_programs(['n3'] if ctx.quick else ['n4', 'z4', 'd4', 'n3', 'n5'])
     out.append(Leg('roundtrip', list(chunked(fam, 6)), work_roundtrip, exhaustive=True,
                    bound='%d programs (%d grammar, %d edge, %d tokenised-only, %d corpus) x {B,P,A} x '
